@@ -67,7 +67,7 @@ def model (c : Case) (o : Obs) (obsText : String) : String :=
   let sc := scanLog o
   -- `bare=1`: the source is a provider function without lifecycle elements (outside the modelled Open/Close protocol);
   -- spec-only: the log must be violation-free, which is what the theorems say about every admitted log
-  if c.op == "cmap" && c.sync && !c.kv.flag "bare" && !c.kv.flag "outerr" then
+  if c.op == "cmap" && c.sync && !c.kv.flag "bare" && !c.kv.flag "outerr" && !c.kv.flag "twice" then
     match acceptCmap c o with
     | "accepted" => obsText
     | "skipped" => if sc.viol.isEmpty then obsText else "model(C02_concmap) admits no violating log"
